@@ -20,7 +20,9 @@ def gen_scenario(rng, tier, prepop_kinds=()):
     exp = rng.choice([14, 14, 15, 16])
     pl = 2 ** exp
     torrents = []
-    names = rng.sample(["T", "payload", "my torrent", "dir.d", "x", "Ünï", "a"], ntor)
+    # names that merely LOOK like path trouble are ordinary names: leading dots, dashes, a tilde, 'con', spaces at the ends
+    names = rng.sample(["T", "payload", "my torrent", "dir.d", "x", "Ünï", "a", "...And Justice", "..notes", ".hidden",
+                        "-dash", "~home", "a..b", " lead and trail ", "back\\slash", "x.torrent"], ntor)
     for k in range(ntor):
         version = rng.choice([1, 2, 3])
         layout = rng.choice(["single", "flat", "flat", "nested", "nested", "empties", "boundary", "samebase"])
@@ -382,6 +384,7 @@ def _decoy_first(world, captured):
 
 # ---------------------------------------------------------------------- C13
 class C13:
+    rule_extra = ('Later additions: metafile / search / destination directories spelled with trailing or doubled separators, dot and dot-dot segments or relative to the cwd; two-phase cases; search paths naming a single file; edited metafiles.')
     id = "C13"
     quick, thorough = 1200, 24000
     timeout = 180
@@ -519,6 +522,7 @@ def _under(path, root):
 
 
 class C14:
+    rule_extra = ('Later additions: respelled directories as in C13; between repeated rebuilds a verified candidate may be overwritten in place (same size, every byte different) and what was built from it deleted - it is a decoy from then on.')
     id = "C14"
     quick, thorough = 1200, 24000
     timeout = 180
@@ -681,6 +685,7 @@ HOSTILE = ["..", ".", "", "../..", "a/../../b", "../../../../../../../../../../.
 
 
 class C19:
+    rule_extra = ('Later additions: names with exactly two leading slashes arrive verbatim (//<sandbox>/x), sibling directories whose names start like the destination, metafile given as a folder.')
     id = "C19"
     quick, thorough = 1200, 24000
     timeout = 120
@@ -714,7 +719,7 @@ class C19:
                 comps = pre + comps
             elif rng.random() < 0.5:
                 comps = ["d"] + comps
-            files.append([comps, rng.choice([5, 100, 16384, 20000]), rng.randrange(1 << 30)])
+            files.append([comps, rng.choice([5, 100, 16384, 20000, 0, 0, 32768]), rng.randrange(1 << 30)])
         name = h1 if pos in ("name", "both") else rng.choice(["T", "pay load"])
         return {"version": version, "pos": pos, "name": name, "files": files, "via": rng.choice(["lib", "cli"]),
                 "single": False, "seed": rng.randrange(1 << 30), "meta_as_dir": rng.random() < 0.35}
